@@ -27,6 +27,7 @@ func rulesC17(c *Ctx, r *Report) {
 		r.undecided("SEED-RO", "mash.Seed", "anchor", "", "variable not found")
 	}
 	rulesFromJaccard(c, r)
+	rulesComplementTable(c, r) // strand independence of the canonical k-mers rests on the table being a case-preserving involution
 }
 
 func isCallTo(info *types.Info, e ast.Expr, full string) *ast.CallExpr {
@@ -298,22 +299,21 @@ func rulesMashDeleg(c *Ctx, r *Report) {
 	}
 	r.check(ok, "DELEG", fname(sq), "Sequences = New(n) + Add", c.pos(sq.Pos()), "Sequences creates a sketch of size n, passes it with k and all sequences to Add, and returns that sketch", "Sequences is not `mh := New(n); Add(mh, k, seqs...); return mh`: building incrementally with Add differs from one call")
 	sd := newSymb(ds)
-	ok = false
-	instrs(ds, func(in ssa.Instruction) {
-		if rt, isRt := in.(*ssa.Return); isRt && len(rt.Results) == 1 {
-			e := sd.expr(rt.Results[0]).String()
-			if strings.HasPrefix(e, "call:mash.FromJaccard(call:gostuff/minhash.(*MinHash[uint64]).Jaccard(P0, P1), P2)") || (strings.HasPrefix(e, "call:mash.FromJaccard(call:gostuff/minhash.") && strings.Contains(e, "Jaccard") && strings.HasSuffix(e, "(P0, P1), P2)")) {
-				ok = true
-			}
-		}
-	})
+	ok = true
 	seen := ""
-	instrs(ds, func(in ssa.Instruction) {
-		if rt, isRt := in.(*ssa.Return); isRt && len(rt.Results) == 1 {
-			seen = sd.expr(rt.Results[0]).String()
+	nRet := 0
+	for _, rc := range returnCases(sd, ds) {
+		nRet++
+		e := sd.expr(rc.vals[0]).String()
+		if !(strings.HasPrefix(e, "call:mash.FromJaccard(call:gostuff/minhash.") && strings.Contains(e, "Jaccard") && strings.HasSuffix(e, "(P0, P1), P2)")) {
+			ok = false
+			seen = e + " under " + rc.guard
 		}
-	})
-	r.check(ok, "DELEG", fname(ds), "Distance = FromJaccard(Jaccard)", c.pos(ds.Pos()), "Distance is FromJaccard(mh1.Jaccard(mh2), k)", "Distance is not FromJaccard(mh1.Jaccard(mh2), k): "+seen)
+	}
+	if nRet == 0 {
+		ok = false
+	}
+	r.check(ok, "DELEG", fname(ds), "Distance = FromJaccard(Jaccard)", c.pos(ds.Pos()), "every return of Distance is FromJaccard(mh1.Jaccard(mh2), k)", "a return of Distance is not FromJaccard(mh1.Jaccard(mh2), k): "+seen)
 }
 
 func rulesFromJaccard(c *Ctx, r *Report) {
